@@ -1,0 +1,84 @@
+// Verification-only helpers (compiled only with `--cfg hotstuff_verif`): JSON descriptions of
+// protocol values for the guarded hook lines. Events go to `network::simnet::emit`.
+use crate::core::Core;
+use crate::messages::{Block, Timeout, Vote, QC, TC};
+use crypto::Hash as _;
+pub use network::simnet::{emit, hex};
+
+pub fn qc(qc: &QC) -> String {
+    let signers: Vec<String> = qc
+        .votes
+        .iter()
+        .map(|(k, _)| format!("\"{}\"", hex(&k.0)))
+        .collect();
+    format!(
+        "{{\"hash\":\"{}\",\"round\":{},\"signers\":[{}]}}",
+        hex(&qc.hash.0),
+        qc.round,
+        signers.join(",")
+    )
+}
+
+pub fn tc(tc: &TC) -> String {
+    let votes: Vec<String> = tc
+        .votes
+        .iter()
+        .map(|(k, _, r)| format!("[\"{}\",{}]", hex(&k.0), r))
+        .collect();
+    format!("{{\"round\":{},\"votes\":[{}]}}", tc.round, votes.join(","))
+}
+
+pub fn opt_tc(x: &Option<TC>) -> String {
+    match x {
+        Some(x) => tc(x),
+        None => "null".to_string(),
+    }
+}
+
+pub fn block(b: &Block) -> String {
+    let payload: Vec<String> = b
+        .payload
+        .iter()
+        .map(|d| format!("\"{}\"", hex(&d.0)))
+        .collect();
+    format!(
+        "{{\"id\":\"{}\",\"round\":{},\"author\":\"{}\",\"qc\":{},\"tc\":{},\"payload\":[{}]}}",
+        hex(&b.digest().0),
+        b.round,
+        hex(&b.author.0),
+        qc(&b.qc),
+        opt_tc(&b.tc),
+        payload.join(",")
+    )
+}
+
+pub fn vote(v: &Vote) -> String {
+    format!(
+        "{{\"hash\":\"{}\",\"round\":{},\"author\":\"{}\"}}",
+        hex(&v.hash.0),
+        v.round,
+        hex(&v.author.0)
+    )
+}
+
+pub fn timeout(t: &Timeout) -> String {
+    format!(
+        "{{\"round\":{},\"author\":\"{}\",\"high_qc\":{}}}",
+        t.round,
+        hex(&t.author.0),
+        qc(&t.high_qc)
+    )
+}
+
+/// Snapshot of the scalar state of the core.
+pub fn state(c: &Core) -> String {
+    let (r, lv, lc, hq) = c.verif_scalars();
+    format!(
+        "\"st\":{{\"r\":{},\"lv\":{},\"lc\":{},\"hqr\":{},\"hq\":\"{}\"}}",
+        r,
+        lv,
+        lc,
+        hq.round,
+        hex(&hq.hash.0)
+    )
+}
